@@ -20,9 +20,10 @@ structure InvBorn (c : Conn α) : Prop where
   hist : ∀ sid, sid ≠ 0 → (c.hist sid).isSome → (c.born sid).isSome
   inj : ∀ sid sid' x, c.born sid = some x → c.born sid' = some x → sid = sid'
   bh : ∀ sid x, c.born sid = some x → (c.hist sid).isSome
+  h0 : c.hist 0 = some ([], false)
 
 theorem invBorn_init (cfg : Cfg) : InvBorn (init cfg : Conn α) := by
-  refine ⟨by simp [init], ?_, ?_, ?_, ?_, ?_⟩
+  refine ⟨by simp [init], ?_, ?_, ?_, ?_, ?_, by simp [init]⟩
   · intro sid x h; simp [init] at h
   · intro sid x h; simp [init] at h
   · intro sid hne hs; simp [init, hne] at hs
@@ -219,7 +220,7 @@ theorem invBorn_step_other {c : Conn α} (hw : Inv c) (hb : InvBorn c) (l : Labe
   have hg := grow_step hw l
   have hexOld := invBorn_old_ex hw hb l
   obtain ⟨e1, e2⟩ := step_ghost_other c l hp
-  refine ⟨Nat.lt_of_lt_of_le hb.npos hg.nextSid, ?_, ?_, ?_, ?_, ?_⟩
+  refine ⟨Nat.lt_of_lt_of_le hb.npos hg.nextSid, ?_, ?_, ?_, ?_, ?_, by rw [e2]; exact hb.h0⟩
   · intro sid x hx; rw [e1] at hx
     exact ⟨Nat.lt_of_lt_of_le (hb.lt sid x hx).1 hg.nextSid, (hb.lt sid x hx).2⟩
   · intro sid x hx; rw [e1] at hx; exact hexOld sid x hx
@@ -233,7 +234,7 @@ theorem invBorn_post {c : Conn α} (hw : Inv c) (hb : InvBorn c) (calls : List N
   have hexOld := invBorn_old_ex hw hb (.post calls listen ver b)
   have hgn : c.nextSid ≤ (post c calls listen ver b).nextSid := hg.nextSid
   rcases post_ghost c calls listen ver b with ⟨e1, e2, _, _, _⟩ | ⟨e1, e2, e3, enew⟩
-  · refine ⟨Nat.lt_of_lt_of_le hb.npos hgn, ?_, ?_, ?_, ?_, ?_⟩
+  · refine ⟨Nat.lt_of_lt_of_le hb.npos hgn, ?_, ?_, ?_, ?_, ?_, by rw [e2]; exact hb.h0⟩
     · intro sid x hx; rw [e1] at hx
       exact ⟨Nat.lt_of_lt_of_le (hb.lt sid x hx).1 hgn, (hb.lt sid x hx).2⟩
     · intro sid x hx; rw [e1] at hx; exact hexOld sid x hx
@@ -246,7 +247,7 @@ theorem invBorn_post {c : Conn α} (hw : Inv c) (hb : InvBorn c) (calls : List N
       by_cases hh : x < c.exs.length
       · exact hh
       · rw [List.getElem?_eq_none (by omega)] at he; cases he
-    refine ⟨by rw [e3]; omega, ?_, ?_, ?_, ?_, ?_⟩
+    refine ⟨by rw [e3]; omega, ?_, ?_, ?_, ?_, ?_, ?_⟩
     · intro sid x hx; rw [e1] at hx; rw [e3]
       simp only at hx
       split at hx
@@ -274,6 +275,9 @@ theorem invBorn_post {c : Conn α} (hw : Inv c) (hb : InvBorn c) (calls : List N
       split
       · rfl
       · rename_i hk; simp only [hk, if_false] at hx; exact hb.bh sid x hx
+    · rw [e2]
+      have : (0 : Nat) ≠ c.nextSid := by have := hb.npos; omega
+      simp [this, hb.h0]
 
 theorem invBorn_step {c : Conn α} (hw : Inv c) (hb : InvBorn c) (l : Label α) : InvBorn (step c l) := by
   cases l with
